@@ -145,7 +145,7 @@ func journalFP(j *ast.Journal) []string {
 				out = append(out, q+"cost|-")
 			}
 			if po.BalanceAssertion != nil {
-				out = append(out, fmt.Sprintf("%sassertion|%v|%s", q, po.BalanceAssertion.IsStrict, amtFP(&po.BalanceAssertion.Amount)))
+				out = append(out, fmt.Sprintf("%sassertion|%s|%s", q, fmt.Sprint(po.BalanceAssertion.IsStrict, po.BalanceAssertion.IsInclusive), amtFP(&po.BalanceAssertion.Amount)))
 			} else {
 				out = append(out, q+"assertion|-")
 			}
@@ -266,7 +266,23 @@ func genFmtCase(r *RNG, bad [][]string) fmtCase {
 		text = strings.Join(lines, "\n")
 	case x == 2:
 		fc.Kind = "hostile"
-		text = hostileText(r, text)
+		switch r.Intn(6) {
+		case 0:
+			// hledger's inclusive balance assertions, which this parser may or may not know
+			text = strings.Replace(text, " = ", Pick(r, []string{" =* ", " ==* "}), 1)
+			if !strings.Contains(text, "=* ") {
+				text += j.EOL + "2019-09-09 inclusive" + j.EOL + "    assets:cash  5 USD  =* 10 USD" + j.EOL + "    equity" + j.EOL
+			}
+		case 1:
+			// a posting with text the parser does not read, behind more syntax errors than any list would hold
+			var sb strings.Builder
+			for k := 0; k < 105+r.Intn(40); k++ {
+				sb.WriteString("!!! not a journal line " + fmt.Sprint(k) + j.EOL)
+			}
+			text = sb.String() + j.EOL + text + j.EOL + "2019-09-09 lot" + j.EOL + "    assets:broker  10 AAPL {$150.00} @ $151.20" + j.EOL + "    assets:cash" + j.EOL
+		default:
+			text = hostileText(r, text)
+		}
 	}
 	fc.Text = text
 	fc.Feats = j.AllFeats()
@@ -277,7 +293,7 @@ func genFmtCase(r *RNG, bad [][]string) fmtCase {
 func hostileText(r *RNG, seed string) string {
 	b := []byte(seed)
 	n := r.Range(1, 6)
-	dict := []string{"@@", "==", "(", ")", "\"", ";", "|", "\r", "\t", "\x00", "\xff\xfe", "\xed\xa0\x80", "\xef\xbb\xbf", "1E9", "0000000000000000000000000000000000000000", "=", "@", "*", "!", "[", "]", "  ", "\n", "\n    ", "2024-01-15 ", "account ", "commodity ", "include ", "P ", "Y ", "D ", "🍕", "é", "$", "€", "-", "+", ",", ".", ":"}
+	dict := []string{"@@", "==", "(", ")", "\"", ";", "|", "\r", "\t", "\x00", "\xff\xfe", "\xed\xa0\x80", "\xef\xbb\xbf", "1E9", "0000000000000000000000000000000000000000", "=", "@", "*", "!", "[", "]", "  ", "\n", "\n    ", "2024-01-15 ", "account ", "commodity ", "include ", "P ", "Y ", "D ", "🍕", "é", "$", "€", "-", "+", ",", ".", ":", "=* ", "==* ", " {$150.00}", " [2024-01-01]"}
 	for k := 0; k < n; k++ {
 		switch r.Intn(6) {
 		case 0: // flip
